@@ -228,6 +228,7 @@ inductive Call where
   | doNothing
   | doUpdate (field : Arg) (value : Option Arg)
   | using (src : Src)
+  | returning (args : List (Arg × Bool))       -- PostgreSQL; the flag: `term.is_aggregate` is truthy
   -- MSSQL
   | top (value : Option Int) (percent withTies : Bool)   -- `none`: `int(value)` raised `ValueError`
   -- ClickHouse
@@ -315,6 +316,65 @@ def tableInBase (r : QR) (t : TRef) : Bool :=
 def andAll : List Term → Option Term
   | [] => none
   | c :: cs => some (cs.foldl (fun acc x => combine .and_ acc x) c)
+
+/-- `term.tables_`: the `Table` objects among the tables of the fields reached by `nodes_()` -/
+def tablesOf (t : Term) : List TRef :=
+  (fieldTabs t).filterMap fun ft => match ft with
+    | some r => if r.name.isSome then some r else none
+    | none => none
+
+/-- PostgreSQL `_validate_returning_term`: `true` = raises `QueryException` -/
+def returnRejects (r : QR) (t : Term) : Bool :=
+  (fieldTabs t).any fun ft =>
+    !(r.insertTable.isSome || r.updateTable.isSome || r.fl.deleteFrom) ||
+    (!(match ft with
+        | none => r.insertTable.isNone || r.updateTable.isNone
+        | some ref => refIn (optSrcs r.insertTable ++ optSrcs r.updateTable) ref) &&
+     (tablesOf t).any fun tr =>
+       !(refIn (r.from_ ++ r.joins.map Join.item ++ optSrcs r.insertTable ++ optSrcs r.updateTable) tr ||
+         r.joins.any fun j => match j with
+           | .on _ _ c _ => (tablesOf c).contains tr
+           | _ => false))
+
+/-- `_return_field` -/
+def returnField (s : St) (t : Term) (isStar : Bool) : R :=
+  if s.returnStar then pure s
+  else if returnRejects s.r t then raise "QueryException"
+  else
+    let kept := if isStar then s.r.returns.filter (fun x => match x with | .field .. => false | .star _ => false | _ => true)
+                else s.r.returns
+    pure { s with returnStar := s.returnStar || isStar, r := { s.r with returns := kept ++ [t] } }
+
+def returnOther (s : St) (t : Term) : R :=
+  if returnRejects s.r t then raise "QueryException"
+  else pure { s with r := { s.r with returns := s.r.returns ++ [t] } }
+
+def returnOne (s : St) : Arg × Bool → R
+  | (.term (.field n a tbl), _) => returnField s (.field n a tbl) false
+  | (.term (.star tbl), _) => returnField s (.star tbl) true
+  | (.str name, _) =>
+    if name = ['*'] then
+      pure { s with returnStar := true
+                    r := { s.r with returns := (s.r.returns.filter fun x => match x with | .field .. => false | .star _ => false | _ => true) ++ [.star none] } }
+    else
+      match s.r.insertTable, s.r.updateTable with
+      | some it, _ => returnField s (mkField name (some (srcRef it))) false
+      | none, some ut => returnField s (mkField name (some (srcRef ut))) false
+      | none, none =>
+        if s.r.fl.deleteFrom then
+          match s.r.from_ with
+          | f :: _ => returnField s (mkField name (some (srcRef f))) false
+          | [] => raise "IndexError"
+        else raise "QueryException"
+  | (.term (.func n sc args d sp ef fi ov pa oo fr np al), agg) =>
+    if agg then raise "QueryException" else returnOther s (.func n sc args d sp ef fi ov pa oo fr np al)
+  | (.term (.arith op l r al), agg) =>
+    if agg then raise "QueryException" else returnOther s (.arith op l r al)
+  | (a, _) => returnOther s (wrapConst (isSqlite s) a)
+
+def returnAll (s : St) : List (Arg × Bool) → R
+  | [] => pure s
+  | a :: as => do returnAll (← returnOne s a) as
 
 /-- which branch of `where()` (generic, or PostgreSQL's override on the ON CONFLICT path) a call takes -/
 inductive WherePath | skip | pgReject | pgDoUpdate | pgConflict | generic
@@ -503,6 +563,7 @@ def step (s : St) : Call → R
           | some w => pure { s with r := { s.r with onConflictDoUpdates := s.r.onConflictDoUpdates ++ [(f, some w)] } }
           | none => raise "Unsupported"
   | .using src => pure { s with r := { s.r with usingSrcs := s.r.usingSrcs ++ [src] } }
+  | .returning args => returnAll s args
   | .top value percent withTies =>
     match value with
     | none => raise "QueryException"
